@@ -582,11 +582,21 @@ Definition switch_ops (A B : fdesc) : list fsop :=
    OCreate (pend_name (fd_num B)); OWrite (pend_name (fd_num B)) (meta_content B); OFsync (pend_name (fd_num B));
    ORename (pend_name (fd_num B)) s_CURRENT; OSyncDir].
 
-Lemma set_meta_ops_switch s A B K i0 : clean s A A K i0 ->
+Lemma has_vol_view s n : has (vol_view s) n = has (ents s) n.
+Proof. unfold has, vol_view. rewrite lookup_view_of. destruct (lookup (ents s) n); reflexivity. Qed.
+
+Lemma vol_try_current s A B K i0 : clean s A B K i0 -> In (gen_name A) K -> int64_ok (fd_num A) = true ->
+  try_current (vol_view s) s_CURRENT = TOk A.
+Proof.
+  intros C HK Hi. unfold try_current. rewrite (vol_cur _ _ _ _ _ C), check_meta_content by assumption.
+  now rewrite has_vol_view, (k_keep_e _ _ _ _ _ C _ HK).
+Qed.
+
+Lemma set_meta_ops_switch' s A B K i0 : clean s A B K i0 -> In (gen_name A) K ->
   int64_ok (fd_num A) = true -> int64_ok (fd_num B) = true -> A <> B ->
   set_meta_ops (vol_view s) B = switch_ops A B.
 Proof.
-  intros C HA HB Hne. unfold set_meta_ops. rewrite (vol_cur _ _ _ _ _ C).
+  intros C HK HA HB Hne. unfold set_meta_ops. rewrite (vol_try_current _ _ _ _ _ C HK HA), (vol_cur _ _ _ _ _ C).
   rewrite beq_neq; [reflexivity|]. intro E. apply Hne. now apply meta_content_inj.
 Qed.
 
@@ -632,14 +642,6 @@ Proof.
   - rewrite Hall. exact H8.
 Qed.
 
-Lemma set_meta_ops_switch' s A B K i0 : clean s A B K i0 ->
-  int64_ok (fd_num A) = true -> int64_ok (fd_num B) = true -> A <> B ->
-  set_meta_ops (vol_view s) B = switch_ops A B.
-Proof.
-  intros C HA HB Hne. unfold set_meta_ops. rewrite (vol_cur _ _ _ _ _ C).
-  rewrite beq_neq; [reflexivity|]. intro E. apply Hne. now apply meta_content_inj.
-Qed.
-
 (* setMeta(B) from a settled directory on A *)
 Theorem set_meta_crash_atomic s A B K i0 :
   clean s A A K i0 -> In (gen_name A) K -> In (gen_name B) K ->
@@ -651,7 +653,7 @@ Theorem set_meta_crash_atomic s A B K i0 :
 Proof.
   intros C0 HKA HKB Hlt HiA HiB.
   assert (A <> B) as Hne by (intro X; subst; lia).
-  unfold set_meta. rewrite (set_meta_ops_switch _ _ _ _ _ C0 HiA HiB Hne).
+  unfold set_meta. rewrite (set_meta_ops_switch' _ _ _ _ _ (clean_open _ _ B _ _ C0) HKA HiA HiB Hne).
   apply (switch_safe s A B K i0); try assumption; [now apply clean_open|lia].
 Qed.
 
@@ -957,9 +959,6 @@ Proof.
     intro X. apply (k_Knf _ _ _ _ _ C _ X). right. right. eauto.
 Qed.
 
-Lemma has_vol_view s n : has (vol_view s) n = has (ents s) n.
-Proof. unfold has, vol_view. rewrite lookup_view_of. destruct (lookup (ents s) n); reflexivity. Qed.
-
 (* which file wins on the directory the running process sees *)
 Lemma clean_choice s A B K i0 :
   clean s A B K i0 -> In (gen_name A) K -> In (gen_name B) K ->
@@ -1034,7 +1033,7 @@ Proof.
     assert (beq q s_CURRENT = false) as ->.
     { destruct (Hpn q Hq) as (z & ->). apply beq_neq, pend_name_not_current. }
     cbn [negb orb andb]. change (g_pend (get_meta_choice (vol_view s))) with (pend_names (vol_view s)).
-    rewrite (set_meta_ops_switch' _ _ _ _ _ C HiA HiB Hne).
+    rewrite (set_meta_ops_switch' _ _ _ _ _ C HKA HiA HiB Hne).
     destruct (switch_safe s A B K i0 C HKA HKB Hle HiA HiB) as (H1 & (j & H2) & H3).
     split.
     + intros k v. destruct (firstn_app_cases k (switch_ops A B) (map OUnlink (pend_names (vol_view s)))) as [[_ ->]|(k' & ->)].
@@ -1044,3 +1043,122 @@ Proof.
       pose proof (clean_unlinks B B K j (pend_names (vol_view s)) Hpn _ (length (map OUnlink (pend_names (vol_view s)))) H2) as X.
       now rewrite firstn_all in X.
 Qed.
+
+(* ================================================================ witnesses *)
+
+Definition M (n : Z) : fdesc := FD TManifest n.
+
+(* ---- a settled directory with a stale backup and a stale pending file, and a chain of events on it *)
+Definition ex_settled_view : view :=
+  [(s_LOCK, []); (s_LOG, [83]); (gen_name (M 1), [109]); (s_CURRENT, meta_content (M 1));
+   (s_CURRENT_bak, meta_content (M 0)); (pend_name 1, meta_content (M 1))].
+
+Lemma lookup_in {A} (v : list (bytes * A)) n x : lookup v n = Some x -> In (n, x) v.
+Proof.
+  induction v as [|[k y] v IH]; cbn [lookup]; [discriminate|]. beq_case' k n.
+  - intro H. inversion H; subst. now left.
+  - intro H. right. auto.
+Qed.
+
+Lemma ex_settled_cleanv : cleanv ex_settled_view (M 1) (M 1) [gen_name (M 1)].
+Proof.
+  split; [reflexivity|split; [|split]].
+  - intros k [<-|[]]. reflexivity.
+  - intros k [<-|[]]. now apply gen_name_not_famc.
+  - intros z c H. apply lookup_in in H. unfold ex_settled_view in H. cbn [In] in H.
+    destruct H as [H|[H|[H|[H|[H|[H|[]]]]]]]; pose proof (f_equal fst H) as Hn; pose proof (f_equal snd H) as Hc; cbn [fst snd] in Hn, Hc; clear H.
+    + exfalso. unfold pend_name, s_CURRENT_dot, s_LOCK in Hn. cbn [app] in Hn. discriminate.
+    + exfalso. unfold pend_name, s_CURRENT_dot, s_LOG in Hn. cbn [app] in Hn. discriminate.
+    + exfalso. destruct (gen_name_not_family (M 1) eq_refl) as (_ & _ & Hg3). exact (Hg3 z Hn).
+    + exfalso. symmetry in Hn. now apply pend_name_not_current in Hn.
+    + exfalso. symmetry in Hn. now apply pend_name_not_bak in Hn.
+    + subst c. intros fd Hfd. vm_compute in Hfd. inversion Hfd. right. cbn. lia.
+Qed.
+
+Definition ex_chain : list chain_ev :=
+  [EvForeign (OCreate (gen_name (FD TTable 7))); EvForeign (OWrite (gen_name (FD TTable 7)) [1; 2]);
+   EvForeign (OCreate (gen_name (M 2))); EvForeign (OWrite (gen_name (M 2)) [109]);
+   EvSwitch (M 2); EvForeign (OUnlink (gen_name (M 1)));
+   EvForeign (OCreate (gen_name (M 3))); EvSwitch (M 3)].
+
+Theorem ex_chain_valid :
+  exists i0, clean (fs_of_view ex_settled_view) (M 1) (M 1) [gen_name (M 1)] i0 /\
+  valid_chain (fs_of_view ex_settled_view) (M 1) [gen_name (M 1)] ex_chain /\
+  List.length (chain_states (fs_of_view ex_settled_view) (M 1) ex_chain) = 27%nat.
+Proof.
+  destruct (restart_clean _ _ _ _ ex_settled_cleanv) as (i0 & C). exists i0. split; [exact C|]. split.
+  - assert (forall fd, int64_ok (fd_num fd) = true -> ~ famc (gen_name fd)) as NF by (intros; now apply gen_name_not_famc).
+    cbn [valid_chain ex_chain]. repeat split; try (constructor; apply NF; reflexivity); try reflexivity; try (cbn; lia).
+    + constructor; [apply NF; reflexivity|]. intros [H|[]]. vm_compute in H. discriminate.
+  - reflexivity.
+Qed.
+
+(* ---- CURRENT unusable, CURRENT.bak good: before the repair "fix: setMeta backs up CURRENT only when it is
+   usable" GetMeta's own repair destroyed the only usable pointer *)
+Definition ex_bak_view : view :=
+  [(s_CURRENT, [77; 65; 78; 73; 70]); (s_CURRENT_bak, meta_content (M 4)); (gen_name (M 4), [109])].
+
+Theorem repair_from_backup_old_refuted :
+  get_meta_result ex_bak_view = GOk (M 4) /\
+  exists k mask sel,
+    get_meta_result (image_view mask sel (fapply_all (fs_of_view ex_bak_view) (firstn k (get_meta_ops_old ex_bak_view))))
+    = GErr GCorrupted.
+Proof. split; [reflexivity|]. exists 3%nat, [], (fun _ => None). reflexivity. Qed.
+
+(* all crash states of the repaired repair on that directory, enumerated: every prefix, every sub-selection of
+   the pending directory operations, the new file cut at every length *)
+Fixpoint all_masks (n : nat) : list (list bool) :=
+  match n with
+  | O => [[]]
+  | S n' => flat_map (fun m => [true :: m; false :: m]) (all_masks n')
+  end.
+
+Definition ex_sels : list (N -> option nat) :=
+  (fun _ => None) :: map (fun k i => if i =? 3 then Some k else None) (seq 0 18).
+
+Theorem repair_from_backup_fixed_enumerated :
+  let ops := snd (get_meta_ops false ex_bak_view) in
+  ops = [OCreate (pend_name 4); OWrite (pend_name 4) (meta_content (M 4)); OFsync (pend_name 4);
+         ORename (pend_name 4) s_CURRENT; OSyncDir] /\
+  forallb (fun k =>
+    forallb (fun mask =>
+      forallb (fun sel =>
+        match get_meta_result (image_view mask sel (fapply_all (fs_of_view ex_bak_view) (firstn k ops))) with
+        | GOk fd => fd_eqb fd (M 4)
+        | GErr _ => false
+        end) ex_sels) (all_masks 2)) (seq 0 6) = true.
+Proof. vm_compute. split; reflexivity. Qed.
+
+(* ---- an answer that was observed can be taken back: a read-only GetMeta sees the pending file of an interrupted
+   switch and answers the new manifest; a crash inside the repair of the next read-write GetMeta (which truncates
+   that very file before rewriting it) leaves a directory that answers the old one.  Both manifests are intact. *)
+Definition ex_pending_view : view :=
+  [(s_CURRENT, meta_content (M 1)); (gen_name (M 1), [109]); (gen_name (M 2), [109]); (pend_name 2, meta_content (M 2))].
+
+Theorem observed_answer_may_revert :
+  get_meta_result ex_pending_view = GOk (M 2) /\
+  exists k mask sel,
+    get_meta_result (image_view mask sel (fapply_all (fs_of_view ex_pending_view)
+                                                   (firstn k (snd (get_meta_ops false ex_pending_view)))))
+    = GOk (M 1).
+Proof. split; [reflexivity|]. exists 4%nat, [true], (fun i => if i =? 3 then Some 0%nat else None). reflexivity. Qed.
+
+(* ---- outside the invariant: a pending file that names a manifest which does not exist (left by a setMeta that
+   failed after writing it) makes the answer depend on other files: creating the named file flips GetMeta *)
+Definition ex_dangling_view : view :=
+  [(s_CURRENT, meta_content (M 5)); (gen_name (M 5), [109]); (pend_name 9, meta_content (M 9))].
+
+Theorem dangling_pending_flips :
+  get_meta_result ex_dangling_view = GOk (M 5) /\
+  get_meta_result (vapply ex_dangling_view (OCreate (gen_name (M 9)))) = GOk (M 9).
+Proof. split; reflexivity. Qed.
+
+(* ---- a switch to an OLDER number is not atomic in this sense: the stale pending file wins afterwards *)
+Definition ex_backwards_view : view :=
+  [(s_CURRENT, meta_content (M 9)); (gen_name (M 9), [109]); (gen_name (M 5), [109]); (gen_name (M 7), [109]);
+   (pend_name 7, meta_content (M 7))].
+
+Theorem backwards_switch_refuted :
+  get_meta_result ex_backwards_view = GOk (M 9) /\
+  get_meta_result (vol_view (set_meta (fs_of_view ex_backwards_view) (M 5))) = GOk (M 7).
+Proof. split; reflexivity. Qed.
